@@ -100,6 +100,9 @@ def judge(ck, v, src, r, bash_pair, counts):
         return
     if v.get("changed"):
         counts["nontrivial"] = counts.get("nontrivial", 0) + 1
+        if counts["nontrivial"] % 97 == 1:
+            ck.sample({"program": short, "simplified": r["text"].split("set -- 5\n")[-1][:160], "returned": r["changed"],
+                       "interp": res_of(r["orig"])}, cap=5)
     # (4) behaviour under the interpreter
     o, s_ = res_of(r["orig"]), res_of(r["simp"])
     if r["orig"].get("panic") or r["simp"].get("panic"):
@@ -141,13 +144,12 @@ def run(ck):
         k = json.dumps(v["ch"])
         if k not in seen:
             seen.add(k); vecs.append(v)
-    ck.notes["programs"] = {"bfs": nb, "sim": len(vecs) - nb}
+    ck.notes["programs_generated"] = {"bfs": nb, "sim": len(vecs) - nb}
     ck.notes["active_deviation_switches"] = devs
     ck.notes["model_unsound_under_deviations"] = sum(1 for v in vecs if v.get("unsound"))
     L = F.load_layouts()[0]
     srcs = [F.render(v["r"], L) for v in vecs]
-    res = vlib.run_harness(h, "simp", [{"src": s_, "timeout_ms": 2000} for s_ in srcs], shards=4, timeout=3000,
-                           env_extra={"GOMAXPROCS": "2"})
+    res = F.run_engine(h, "simp", [{"src": s_, "timeout_ms": 2000} for s_ in srcs], shards=4)
     # bash: programs whose text changes, up to the cap (seeded), original and simplified text
     cand = [i for i, r in enumerate(res) if r.get("text") and r["text"] != srcs[i] and not r.get("reparse_error")]
     if len(cand) > T["bash"]:
